@@ -266,3 +266,35 @@ Proof.
   - intros Hs x y. rewrite (Hs (x, y)). apply H.
   - intros Hs [x y]. rewrite Hs. symmetry. apply H.
 Qed.
+
+(* positional reading: the observation judged for an evaluation step is the one AT the
+   step's position among the evaluations *)
+Fixpoint n_evals (steps : list hstep) : nat :=
+  match steps with
+  | [] => 0
+  | HEval _ _ _ _ :: r => S (n_evals r)
+  | _ :: r => n_evals r
+  end.
+
+Theorem h_spec_reading_pos steps : forall g os,
+  h_spec g steps os = true ->
+  length os = n_evals steps /\
+  forall pre p s o sp post, steps = pre ++ HEval p s o sp :: post ->
+  let g' := fold_left (fun g st => match st with HAdd t => g_add t g | HDel t => g_del t g | _ => g end) pre g in
+  exists ob, nth_error os (n_evals pre) = Some ob /\ spec_ok (hc g' p s o sp) ob = true.
+Proof.
+  induction steps as [|st r IH]; intros g os H.
+  - simpl in H. destruct os; [|discriminate]. split; auto. intros pre p s o sp post Heq. destruct pre; discriminate.
+  - destruct st as [p' s' o' sp'|t|t]; simpl in H.
+    + destruct os as [|ob os']; [discriminate|]. apply andb_true_iff in H. destruct H as [H0 H].
+      destruct (IH g os' H) as [Hlen Hpos]. split; [simpl; congruence|].
+      intros pre p s o sp post Heq. destruct pre as [|st' pre]; simpl in Heq; inversion Heq; subst.
+      * exists ob. simpl. auto.
+      * simpl. apply (Hpos pre p s o sp post eq_refl).
+    + destruct (IH _ os H) as [Hlen Hpos]. split; [simpl; auto|].
+      intros pre p s o sp post Heq. destruct pre as [|st' pre]; simpl in Heq; inversion Heq; subst.
+      simpl. apply (Hpos pre p s o sp post eq_refl).
+    + destruct (IH _ os H) as [Hlen Hpos]. split; [simpl; auto|].
+      intros pre p s o sp post Heq. destruct pre as [|st' pre]; simpl in Heq; inversion Heq; subst.
+      simpl. apply (Hpos pre p s o sp post eq_refl).
+Qed.
